@@ -168,6 +168,15 @@ func (ps *Parser) parseMetaTags(root *html.Node) {
 		metaNodes = dom.QuerySelectorAll(root, "meta[property]")
 	}
 
+	// The profile and article properties only count for an object of their type, which
+	// "og:type" may name anywhere in the document. So look for it before anything else.
+	typeProperty := ps.prefixes[OG] + ":" + TypeProp
+	for _, meta := range metaNodes {
+		if strings.ToLower(dom.GetAttribute(meta, "property")) == typeProperty {
+			ps.propertyTable[TypeProp] = dom.GetAttribute(meta, "content")
+		}
+	}
+
 	// Parse property
 	for _, meta := range metaNodes {
 		content := dom.GetAttribute(meta, "content")
@@ -178,10 +187,12 @@ func (ps *Parser) parseMetaTags(root *html.Node) {
 		for _, importantProperty := range importantProperties {
 			prefixWithColon := ps.prefixes[importantProperty.Prefix] + ":"
 
-			// Note that `==` won't work here because importantProperties uses "image:"
+			// Note that `==` alone won't work here because importantProperties uses "image:"
 			// (ImageStructPropPfx) for all image structured properties, so as to prevent
 			// repetitive property name comparison - here and then again in ImageParser.
-			if !strings.HasPrefix(property, prefixWithColon+importantProperty.Name) {
+			// Any other name has to match as a whole ("og:title:alt" is not "og:title").
+			name := prefixWithColon + importantProperty.Name
+			if property != name && !(strings.HasSuffix(name, ":") && strings.HasPrefix(property, name)) {
 				continue
 			}
 
